@@ -8,7 +8,9 @@ for l in open('/verif/properties.jsonl'):
     if p['id'] == pid:
         rec = p
 assert rec
-wt = f"/tmp/wt/{pid}"
+rnd = sys.argv[2] if len(sys.argv) > 2 else ""
+wt = f"/tmp/wt/{pid}{rnd}"
+nums = "(3, 4)" if rnd else "(1, 2)"
 print(f"""You are helping evaluate bug-detection tooling by seeding realistic regressions into a Python library.
 
 Repository: a scratch git worktree of Query-farm/vgi-rpc-python at {wt} (HEAD of the current development branch, which already contains a number of recent 'fix:' commits; work ONLY there; never touch /repo, never read or use /verif). Python: /venv/bin/python (the library's dependencies are installed there). No network is available.
@@ -23,7 +25,7 @@ Your task: produce TWO independent changes (mutations) to the library source und
      (takes roughly 5-30 minutes depending on machine load; success = a line containing 'stable_not_passed=0', OR 'stable_not_passed=1' where the only item is `tests.__init__::mypy-status` — that item fails in fresh worktrees of this sandbox regardless of any change (missing `tenacity` stub), treat it as environmental. Several hundred HTTP-over-real-socket tests fail in this sandbox regardless of your change; only the 'stable' set is judged by that script. The machine is shared and heavily loaded: timeout-sensitive tests may flake (the script re-runs a few failures in isolation; re-run others yourself in isolation before blaming your change), and a full run occasionally hangs in `tests/test_conformance.py::TestLargeData::test_large_list[subprocess]` — if a run makes no progress for 15 minutes, kill that xdist worker (`pkill -9 -f "{wt}/tests/serve_conformance"`) or restart with `--deselect` of that test. Run targeted test files first (`/opt/suite/run_suite.py {wt} tests/test_x.py ...`), and the full suite once per mutation at the end.
 Each change must need something SPECIFIC to manifest: a particular thread interleaving, a crash/fault at a particular point, a multi-step sequence of operations, an unusual input, a particular configuration, or two cooperating code sites that each look fine alone. It must NOT be something ordinary use would expose at once. Make each look like a plausible small refactor / optimisation / regression a maintainer could really write (a few lines; not a sabotage comment, no dead code, no renamed-for-no-reason identifiers). The two mutations should touch different mechanisms/sites where feasible.
 
-For each mutation n in (1, 2) deliver, in /tmp/seed_out/{pid}/<n>/ :
+For each mutation n in {nums} deliver, in /tmp/seed_out/{pid}/<n>/ :
   - patch.diff  : `git -C {wt} diff` of the change against HEAD (must apply cleanly with `git apply` on a clean checkout)
   - demo.py     : a standalone demonstration, run as `cd {wt} && PYTHONPATH={wt} /venv/bin/python /tmp/seed_out/{pid}/<n>/demo.py`, that exits NON-ZERO (or raises) WITH the change applied and exits 0 WITHOUT it. Verify both directions yourself. In-process transports are available (e.g. `vgi_rpc.rpc.serve_pipe`/`connect`-style helpers, and `vgi_rpc.http.make_sync_client` gives an in-process HTTP client without sockets); look at tests/ for usage examples. Keep the demo deterministic (control interleavings with events/barriers or by calling internals directly, rather than sleeping and hoping).
   - notes.md    : which property clause breaks, the exact site(s) changed, what is needed for it to manifest, and the commands you ran with their results (suite result line, demo result with and without the patch).
